@@ -391,8 +391,8 @@ int main(int argc, char** argv) {
     ctx.parse(argc, argv, "C06");
     const bool T = ctx.thorough();
     auto C = make_configs(T);
-    const int K1 = T ? 14 : 11;
-    const int K2 = T ? 96 : 40;
+    const int K1 = T ? 16 : 11;
+    const int K2 = T ? 128 : 40;
     for (size_t ci = 0; ci < C.size(); ++ci) {
         const Config& c = C[ci];
         const uint64_t chash = fnv(c.name);
